@@ -852,6 +852,15 @@ class RegionLifter:
                     pos -= 1
                 order.insert(pos, k)
             return Vec(order)
+        if name == "np.sort":
+            xs = list(args[0])
+            order = []
+            for k in range(len(xs)):
+                pos = len(order)
+                while pos > 0 and self.rg.compare(xs[k], "<", xs[order[pos - 1]]):
+                    pos -= 1
+                order.insert(pos, k)
+            return Vec(xs[k] for k in order)
         if name == "np.cumsum":
             out, t = Vec(), const(0)
             for x in args[0]:
@@ -883,7 +892,7 @@ class RegionLifter:
             raise Unsupported("isinf")
         if name in ("np.cos", "np.arccos", "np.sin", "np.cbrt", "np.arctan"):
             raise Unsupported(f"transcendental {name}")
-        if name in ("np.sort", "np.flip", "np.unique"):
+        if name in ("np.flip", "np.unique"):
             raise Unsupported(name)
         if name in ("np.finfo", "np.iinfo"):
             self.rg.values.setdefault("TINY", 2.220446049250313e-16)
